@@ -49,9 +49,9 @@ class LmtpRelayClient(SmtpRelayClient):
     def _deliver(self, result, envelope):
         rcpt_results = dict.fromkeys(envelope.recipients)
         try:
-            self._handle_encoding(envelope)
-            self._send_envelope(rcpt_results, envelope)
-            data_results = self._send_message_data(envelope)
+            converted = self._handle_encoding(envelope)
+            self._send_envelope(rcpt_results, converted)
+            data_results = self._send_message_data(converted)
         except _AllRecipientsRejected as e:
             self._set_rejected(result, envelope, e.rcpttos)
             return
